@@ -120,7 +120,7 @@ def build(prop, seed, prof):
     # history
     n_events = rng.randint(*prof.get('n_events', (10, 120)))
     weights = prof.get('weights', {'event': 70, 'forced': 10, 'removed': 3, 'added': 3, 'down': 2, 'mute': 2,
-                                   'stealth': 1.5, 'disability': 1, 'op': 3, 'tick': 1, 'state': 1})
+                                   'stealth': 1.5, 'disability': 1, 'op': 3, 'tick': 1, 'state': 1, 'op_remove': 1.5})
     kinds = sorted(weights)
     total = sum(weights.values())
     times = sorted(rng.uniform(t0, t1) for _ in range(n_events))
@@ -190,6 +190,17 @@ def build(prop, seed, prof):
             if rng.random() < 0.6:
                 item['prefer'] = 'isolated'
                 item['pick'] = gen.pick(rng, [0, 0, 1, 2, item['pick']])
+        elif kind == 'op_remove':
+            # a start asked to a real instance, and the program removed from the peers while the request is pending
+            target = gen.pick(rng, reals)
+            ns = gen.pick(rng, namespecs)
+            plan.append({'t': round(t, 4), 'kind': 'rpc', 'inst': target, 'method': 'supvisors.start_process',
+                         'args': [gen.pick(rng, [0, 1, 2, 4, 5]), ns, '', False]})
+            for q in pups:
+                if rng.random() < 0.8:
+                    plan.append({'t': round(t + rng.uniform(0.3, 9.0), 4), 'kind': 'p_removed', 'p': q,
+                                 'ns': ns if rng.random() < 0.8 else ns.split(':')[0] + ':*'})
+            continue
         elif kind == 'op':
             target = gen.pick(rng, reals)
             ns = gen.pick(rng, namespecs)
